@@ -875,3 +875,40 @@ pub fn ssl_refusal_detail(case: &Case, o: &Obs, label: &str) -> J {
         .set("server_bytes_flushed", o.world.visible.len()).set("server_bytes_written_but_never_flushed", o.world.pending.len())
         .set("outcome", o.outcome.describe())
 }
+
+/// What the server sends in reply to the raw part of an input (`Case::raw_tail`: packets the harness
+/// appended without saying what they are - malformed, unknown, empty): whatever it is, each reply
+/// starts one above the id of one of the tail's packets, in the tail's order, and runs on from there.
+/// Returns (packets checked, first violation).
+pub fn raw_tail_reply_ids(obs: &Obs, pkts: &[wire::Pkt], msgs: &[wire::Msg], dec: &wire::Decoded) -> (u64, Option<String>) {
+    let (Some(&(tail_at, _)), Some(&(_, last_msg))) = (obs.ends.last(), dec.spans.last()) else { return (0, None) };
+    if dec.spans.len() != obs.kinds.iter().filter(|k| k.expects_reply()).count() || tail_at >= obs.world.input.len() {
+        return (0, None);
+    }
+    let (tp, _) = wire::packets_prefix(&obs.world.input[tail_at..]);
+    let Some(m) = msgs.get(last_msg) else { return (0, None) };
+    let mut j = 0;
+    let mut prev: Option<u8> = None;
+    let mut n = 0;
+    for (k, p) in pkts[m.first..].iter().enumerate() {
+        n += 1;
+        if prev.map_or(false, |pv| p.seq == pv.wrapping_add(1)) {
+            prev = Some(p.seq);
+            continue;
+        }
+        let mut found = false;
+        while j < tp.len() {
+            let r = tp[j].seq;
+            j += 1;
+            if p.seq == r.wrapping_add(1) {
+                found = true;
+                break;
+            }
+        }
+        if !found {
+            return (n, Some(format!("packet #{} of what the server sent in reply to the raw part of the input carries id {}, which neither continues the packet before it nor is one above the id of any (remaining) request packet {:?}", k, p.seq, tp.iter().map(|p| p.seq).collect::<Vec<_>>())));
+        }
+        prev = Some(p.seq);
+    }
+    (n, None)
+}
